@@ -583,9 +583,9 @@ pub fn property() -> Property {
             },
             check_nest,
         ),
-        prop_family("structured-sessions", 25_000, 1_000_000, |_| structured_session(), check_session),
-        prop_family("hostile-sessions", 40_000, 2_000_000, |_| hostile_session(), check_session),
-        prop_family("raw-sessions", 20_000, 1_000_000, |_| raw_session(), check_session),
+        prop_family("structured-sessions", 80_000, 1_000_000, |_| structured_session(), check_session),
+        prop_family("hostile-sessions", 150_000, 2_000_000, |_| hostile_session(), check_session),
+        prop_family("raw-sessions", 80_000, 1_000_000, |_| raw_session(), check_session),
     ];
     Property {
         id: "C01",
